@@ -13,7 +13,13 @@ RULE = ('1-5 coroutines given as scripts (per resumption: optional in-body start
         '(half of the cases use the small alphabet dt {0, 1/2, 1} x waits {1/2, 1, 2} so that '
         'the accumulated dt meets deadlines exactly: about 45 % of all waits); 25 % of the '
         'cases add kill / restart traffic between frames and inside bodies; all times dyadic, '
-        'no tolerance anywhere; non-trivial = at least two positive waits ran out in the trace')
+        'no tolerance anywhere; in 65 % of the cases every yielded wait and every dt is fed '
+        'as float, int, fractions.Fraction or bool (same dyadic value; Decimal is not fed: '
+        'the real process() raises TypeError on Decimal + float); 12 % of the generators '
+        'were advanced outside the processor before start; 40 % of the cases drive the '
+        'processor through World.process between other processors (half of them start '
+        'through a @desper.coroutine function with world=), 40 % kill / query through the '
+        'CoroutinePromise; non-trivial = at least two positive waits ran out in the trace')
 TRUSTED = [
     'Coq 8.16.1 kernel + vm_compute (evaluation of C08_verdict on the observed traces)',
     'hand-written model Coro/Model.v tied to /repo by this correspondence run '
